@@ -237,3 +237,42 @@ func VerifChunkedStream() {
 	symapi.Assert(n == 5 && rest[0] == '$' && rest[4] == 'Z', "positioned-at-next-message")
 	symapi.Reach("end")
 }
+
+// verifPlainWriter is an io.Writer without WriteString (as buffered.Conn is).
+type verifPlainWriter struct{ b []byte }
+
+func (w *verifPlainWriter) Write(p []byte) (int, error) { w.b = append(w.b, p...); return len(p), nil }
+
+// VerifPlainWriterBodies: messages written to a plain io.Writer (no WriteString method - the
+// server's connections are such writers) equal byte for byte what a bytes.Buffer receives,
+// for bodies and header values of every size class up to 70000 bytes.
+func VerifPlainWriterBodies() {
+	n := []int{0, 1, 2047, 2048, 2049, 4096, 8193, 70000}[symapi.Choose("bodySize", 8)]
+	body := make([]byte, n)
+	for i := range body {
+		body[i] = 'a' + byte(i%23)
+	}
+	u, _ := url.Parse("rtsp://h/a")
+	req := &Request{Method: MethodAnnounce, URL: u, Header: make(Header), Body: string(body)}
+	req.Header.Set(FieldCSeq, "3")
+	resp := &Response{StatusCode: 200, Header: make(Header), Body: string(body)}
+	resp.Header.Set(FieldCSeq, "3")
+	var ref bytes.Buffer
+	pw := &verifPlainWriter{}
+	if symapi.Bool("response") {
+		resp.Write(&ref)
+		symapi.Assert(resp.Write(pw) == nil, "write-ok")
+	} else {
+		req.Write(&ref)
+		symapi.Assert(req.Write(pw) == nil, "write-ok")
+	}
+	want := ref.Bytes()
+	symapi.Assert(len(pw.b) == len(want), "plain-writer-receives-the-whole-message")
+	for i := 0; i < len(want) && i < len(pw.b); i += 61 {
+		symapi.Assert(pw.b[i] == want[i], "plain-writer-bytes-equal")
+	}
+	if len(want) > 0 && len(pw.b) == len(want) {
+		symapi.Assert(pw.b[len(want)-1] == want[len(want)-1], "plain-writer-bytes-equal")
+	}
+	symapi.Reach("end")
+}
